@@ -14,6 +14,10 @@ CLASSES = dict(v0Rx=trxd_proto.PDUv0Rx, v0Tx=trxd_proto.PDUv0Tx, v1Rx=trxd_proto
                v1Tx=trxd_proto.PDUv1Tx, v2Rx=trxd_proto.PDUv2Rx, v2Tx=trxd_proto.PDUv2Tx)
 MODLEN = {0: 1, 1: 1, 2: 1, 3: 1, 4: 3, 5: 3, 6: 1, 7: 1, 8: 4, 9: 4, 10: 5, 11: 5, 12: 2, 13: 2}
 RENAME = {"soft-bits": "soft", "hard-bits": "hard"}
+# a long-running tool creates one PDU object per datagram: nothing may accumulate across objects
+for _cls in CLASSES.values():
+    for _ in range(1300):
+        _cls()
 BACK = {v: k for k, v in RENAME.items()}
 
 
@@ -27,10 +31,23 @@ def to_py(vals):
             out[BACK.get(k, k)] = bytes(v)
         else:
             out[k] = v
-    for part in [out] + out.get("bpdu", []):
+    for part, src in [(out, vals)] + list(zip(out.get("bpdu", []), vals.get("bpdu", []))):
+        part.pop("stale", None)
         if part.get("nope") == 1:
             part.pop("soft-bits", None)
             part.pop("hard-bits", None)
+            if src.get("stale"):
+                # content reused after a normal burst: the burst value is still in the dict, the
+                # NOPE flag says it is not part of the PDU
+                part["soft-bits" if "soft" in src else "hard-bits"] = bytes(src["stale"])
+    return out
+
+
+def clean(vals):
+    """vals without the driver-only "stale" entries (a burst value left in the content of a NOPE part)."""
+    out = {k: v for k, v in vals.items() if k != "stale"}
+    if "bpdu" in out:
+        out["bpdu"] = [clean(x) for x in out["bpdu"]]
     return out
 
 
@@ -78,7 +95,12 @@ def rand_part(rng, rx, batched, ver):
         mod = rng.randrange(16)          # the modulation bits of a NOPE part are meaningless, any value
     n = MODLEN.get(mod, 0) * GB
     bits = [] if nope else ([rng.randrange(255) for _ in range(n)] if rx else [rng.getrandbits(1) for _ in range(n)])
+    stale = []
+    if nope and rng.random() < 0.5:
+        stale = [rng.randrange(255) if rx else rng.getrandbits(1) for _ in range(rng.choice([GB, 3 * GB, 7]))]
     p = dict(tn=rng.randrange(8), batch=rng.getrandbits(1), trxn=rng.randrange(64), nope=nope, mod=mod, tsc=rng.randrange(8))
+    if stale:
+        p["stale"] = stale
     if rx:
         p.update(rssi=-rng.choice([0, 1, 47, 120, 254, 255, rng.randrange(256)]),
                  toa256=rng.choice([-32768, 32767, -1, 0, rng.randint(-32768, 32767)]),
